@@ -60,3 +60,13 @@ reg("C14", "exploration", "bounded-exhaustive enumeration of signature trees, in
     "connected in up to 8 tuple constructions x all argument permutations (simulated with every value of every output leaf), subjected to every single-point corruption (exactly ConnectionError, no statements added), and its "
     "component metadata compared with an oracle document and validated against the published schema.",
     "Trusted: vf/ref/c14_tree.py. A dimension mismatch is only required to raise (any exception), as the statement does not list it.")
+reg("C19", "model_checking", "explicit-state exploration of all request histories of the real ResourceManager in product with a reference allocator over bounded-exhaustive platform tables; end-to-end constraint-file validation on three open-toolchain platforms",
+    "For every table of the structure / decoration / override / dangling-connector families every request history of length 3 (4 on small tables, thorough) is executed on a fresh real ResourceManager in lock step "
+    "with a reference allocator: grant/refuse class, allocation unchanged after refusal (observed only through later requests), and returned port geometry (bit count, pin names through connector chains, inversion, direction) on every step; "
+    "every request permutation is built with prepare() on iCE40/ECP5/Gowin and the parsed .pcf/.lpf/.cst compared bit for bit with the RTLIL top-level ports, declared pins and clocks.",
+    "Trusted: vf/ref/c19_alloc.py (~200 lines). Bounds: 4 pins, <=3 resources, connector depth 3. Closed-toolchain vendor templates need Yosys and are not covered.")
+reg("C20", "exploration", "bounded-exhaustive enumeration of format specifications x shapes x values against a hand-written grammar and Python format(); exhaustive bounded action sequences on control-flow designs against an activity/edge model",
+    "Every spec string of the product alphabet (54k quick / 66k thorough, incl. brace fills and malformed strings) over 10 shapes and 3 operand forms: acceptance equals the documented grammar, printed text and Assert message equal "
+    "Python format() of the value in its own shape; every action sequence of length<=3 (4) over (input valuation, clock toggle mask) from every register state on 127 (739) generated If/Switch designs in pos/neg/async-reset domains: "
+    "prints exactly at active edges where active, AssertionError exactly at the first active edge with a false active Assert/Assume.",
+    "Trusted: vf/ref/c20_ref.py. Widths above 8 use corner values; comb-domain Print and the VCD formatting path (needs pyvcd) are not covered.")
